@@ -13,6 +13,10 @@ History = calls that follow other calls (only on calculators whose every single 
          ONE weight array and updates it in place (every ordered pair of states as consecutive calls), overwrites the
          arrays it got back, and uses two calculators over the same materials alternately with the same array; every
          call inside a history is judged against the record of the same (weights, density) from the first pass.
+Results  = what a calculator hands out belongs to the caller: every series of 2..3 calls over {a calculator, a second
+         calculator (created again from the same list and the same wavelength object, or with another wavelength form)}
+         x {two different (weights, density), a vacuum} - every result is judged when returned, kept, and compared byte for
+         byte with its snapshot after every later refill of the weight array and every later call of either calculator.
 Arguments = the materials list, the Formula objects, the wavelength argument and the weight array are compared with
          their state before the call.
 Creation = the calculator is precomputed for the list and the wavelength it was CREATED with: the caller edits its
@@ -50,7 +54,14 @@ META = dict(
           "and the next state are asked for; (c) two calculators over the same material objects (two wavelength "
           "forms) are called alternately with the same reused array, every ordered pair of weight vectors in both "
           "roles; a history case is non-trivial when the judged call is not a vacuum and differs from the call "
-          "before it.  ARGUMENTS: the materials list, every Formula in it (structure with atoms by identity, "
+          "before it; (d) CALL SERIES: every sequence of 2..3 calls over {this calculator, a second calculator} x "
+          "{(1..1; 1), ((3, 0.5, 1); 2.5), ((3, 0.5, 1); 0)} with one caller-owned weight array refilled before every "
+          "call; the second calculator is once a second creation from the same list, Formula objects and wavelength "
+          "object, once the calculator of the next wavelength form; every result is judged at return (or is "
+          "bit-identical to a judged result of the same calculator and argument), kept, and compared byte for byte "
+          "(dtype, shape, bytes) with its snapshot after the next refill of the weight array and after EVERY later "
+          "call of either calculator; a series is non-trivial when a non-vacuum call follows a kept result.  "
+          "ARGUMENTS: the materials list, every Formula in it (structure with atoms by identity, "
           "density, name, text) and the wavelength argument are compared with their state before the constructor "
           "and again after all calls; the weight array is compared byte for byte after every call.  CREATION-TIME "
           "VALUES: for every calculator of a list of length <= 2 whose single calls were right, a new calculator is "
@@ -69,12 +80,16 @@ META = dict(
               "array whose length equals the number of materials.  Histories: the lists among these over the 6 "
               "materials H2O, B4C, Gd2O3, Lu[176], Au, C15D31(named) x forms {default, float, length-4 array, "
               "length-n array}; n <= 2: all 12 / 48 states, i.e. 144 / 2304 ordered pairs; n = 3: weights {0, 1}^3 x "
-              "density {1, 2.5}, 256 ordered pairs.  Creation-time values: the 42 lists of length <= 2 over these 6 materials x "
+              "density {1, 2.5}, 256 ordered pairs.  Call series: the same lists x forms {default, float, length-1 / length-4 / "
+              "length-n array} x 2 second calculators x all 36 + 216 series of 2..3 calls over 2 calculators x 3 "
+              "arguments.  Creation-time values: the 42 lists of length <= 2 over these 6 materials x "
               "forms {default, float, length-1 / length-4 / length-n array, length-4 list} x 4-6 edits x 2 timings x all "
               "states.  Derived materials: 1320 histories + 528 controls",
         thorough="all 1884 lists of length 1..3; 4^n weight vectors; 3 densities; the same nine wavelength forms.  "
                  "Histories: every list of length 1..2 with all states and all nine forms; lists of 3 over the 6 "
-                 "materials above with weights {0, 1, 3}^3 x density {1, 2.5} (2916 ordered pairs), all nine forms.  "
+                 "materials above with weights {0, 1, 3}^3 x density {1, 2.5} (2916 ordered pairs), all nine forms.  Call series: "
+                 "these lists x all nine forms x 2 second calculators x all 64 + 512 series of 2..3 calls over 2 "
+                 "calculators x 4 arguments.  "
                  "Creation-time values: all 156 lists of length <= 2 x all nine forms.  Derived materials as in quick"),
     assumptions=[
         "the formula sum_i w_i*material_i is handed to neutron_sld as the atom dictionary {atom: sum_i w_i*count_i} "
@@ -99,8 +114,11 @@ META = dict(
         "the library's n*m / m+o reports other atoms (formula arithmetic, C02) the history is counted and not judged",
         "'unaltered argument' means the values a caller can read (list members by identity, Formula structure / "
         "density / name / text, array bytes), not private attributes the library might attach to its own objects",
-        "histories longer than two calls are covered only as they occur inside the walks (each call is judged, but "
-        "not every triple of states occurs); private tables are not in the alphabet (the calculator has no table= "
+        "a result handed out by the calculator is the caller's from then on (the statement says what the calculator "
+        "RETURNS; a returned value that changes when the calculator is used again, or when the caller refills its own "
+        "weight array, is not that value any more): kept results are compared by dtype, shape and bytes",
+        "histories longer than two calls are covered as they occur inside the walks (each call is judged, but "
+        "not every triple of states occurs) and exhaustively up to three calls over the 3-4 arguments of the call series; private tables are not in the alphabet (the calculator has no table= "
         "argument; per-table data is C10 / C20)",
     ],
     level_text="every member of the stated finite space was executed on the real calculator and compared with the "
@@ -109,7 +127,9 @@ META = dict(
                "of which are taken both ways inside the bound; nothing is claimed for longer lists except through "
                "the small-scope argument (sums over the list axis, broadcast over the wavelength axis); a calculator "
                "that remembers anything of an earlier call, of the caller's array or of a sibling calculator is "
-               "exposed by the pair walks, in which every state follows every state",
+               "exposed by the pair walks, in which every state follows every state; a calculator that hands out "
+               "storage it goes on using is exposed by the call series, in which every kept result is read again "
+               "after every later call",
     level_note="trusted: nsf.neutron_sld on an explicit atom dictionary (C03) as the reference route; numpy",
 )
 
@@ -214,6 +234,29 @@ def arg_state(x):
     if isinstance(x, (list, tuple)):
         return (type(x).__name__, tuple(arg_state(v) for v in x))
     return ("value", repr(x))
+
+
+def result_state(leaves):
+    """What a caller can read of the three values a calculator handed out (array dtype / shape / bytes)."""
+    return tuple(((g.dtype.str, g.shape, g.tobytes()) if isinstance(g, np.ndarray) else repr(g)) for g in leaves)
+
+
+def show_state(snap):
+    return [np.frombuffer(x[2], dtype=x[0]).reshape(x[1]).tolist() if isinstance(x, tuple) else x for x in snap]
+
+
+def series_args(n, tier):
+    """the (weights, density) arguments of the call series: two different materials-in-bulk, (thorough: a third,) and a
+    vacuum by density"""
+    a = ((1,) * n, 1)
+    b = ((3, 0.5, 1)[:n], 2.5)
+    c = ((0.5, 1, 0)[:n], 1)
+    z = ((3, 0.5, 1)[:n], 0)
+    return [a, b, z] if tier == "quick" else [a, b, c, z]
+
+
+SERIES_DEPTH = 3
+SERIES_FORMS_QUICK = ("default", "float", "arr1", "arr4", "arrN")
 
 
 def de_bruijn_pairs(k):
@@ -595,6 +638,110 @@ class ListCheck(object):
         return True
 
 
+    # ------------------------------------------------------------------ results handed out earlier stay what they were
+    def twin(self, acc):
+        """A second calculator created by the same caller from the SAME list, Formula objects and wavelength object; it
+        shares the records of the first pass (same list, same wavelengths).  None after a violation."""
+        t = copy.copy(self)
+        mats = [self.E.F[i] for i in self.mats]
+        acc.evaluations += 1
+        try:
+            with np.errstate(all="ignore"):
+                t.calc = (self.E.nsf.neutron_composite_sld(mats) if self.wl is None else
+                          self.E.nsf.neutron_composite_sld(mats, wavelength=self.wl))
+        except Exception as e:
+            acc.violation("constructor-raises:second-creation:%s" % self.kind, self.case(), expected="a calculator",
+                          observed="%s: %s" % (type(e).__name__, e),
+                          standalone=_snippet(self.E, self.mats, [1] * len(self.mats), 1, self.form))
+            return None
+        t.is_twin = True
+        return t
+
+    def series_snippet(self, other, series, show):
+        E, n = self.E, len(self.mats)
+        lines = _snippet(E, self.mats, series[show][1][0], series[show][1][1], self.form).rstrip("\n").split("\n")
+        head = lines[:-2]
+        wl2 = _wl_code(other.form, n)
+        body = []
+        if getattr(other, "is_twin", False) and isinstance(self.wl, (np.ndarray, list, tuple)):
+            # the twin was created with the very same wavelength object
+            head = head[:-1] + ["wl = %s" % _wl_code(self.form, n), "calc = nsf.neutron_composite_sld(materials, wavelength=wl)"]
+            body.append("calc2 = nsf.neutron_composite_sld(materials, wavelength=wl)")
+        else:
+            body.append("calc2 = nsf.neutron_composite_sld(materials%s)" % ("" if wl2 is None else ", wavelength=%s" % wl2))
+        body.append("w = np.zeros(%d)" % n)
+        for t, (ci, (wv, d)) in enumerate(series):
+            body.append("w[:] = %r; r%d = %s(w, density=%r)" % ([float(x) for x in wv], t + 1, ("calc", "calc2")[ci], d))
+        body.append("print(r%d)          # handed out by call %d, read after call %d" % (show + 1, show + 1, len(series)))
+        lc = (self, other)[series[show][0]]
+        wv, d = series[show][1]
+        direct = _snippet(E, lc.mats, wv, d, lc.form).rstrip("\n").split("\n")[-1]
+        return "\n".join(head + body + [direct]) + "\n"
+
+    def series_walk(self, acc, other, args, depth, only=None):
+        """What a calculator hands out belongs to the caller: EVERY series of 2..`depth` calls over {this calculator, a
+        second one} x `args` (the caller keeps one weight array and refills it before each call); every result is
+        judged when it is returned, kept, and compared byte for byte with its snapshot after the refill of the weight
+        array and after every later call of either calculator."""
+        calcs = (self, other)
+        n = len(self.mats)
+        w = np.zeros(n)
+        judged = {}
+        kinds = [(ci, ai) for ci in (0, 1) for ai in range(len(args))]
+        plans = [only] if only is not None else itertools.chain(*[itertools.product(kinds, repeat=k)
+                                                                  for k in range(2, depth + 1)])
+        for plan in plans:
+            series = [(ci, args[ai]) for ci, ai in plan]
+            acc.states += 1
+            held = []                    # (calculator index, leaves, snapshot)
+            interesting = False
+            for t, (ci, ai) in enumerate(plan):
+                lc, state = calcs[ci], args[ai]
+                case = dict(lc.case(state[0], state[1]), mode="series", wl2=calcs[1 - ci].form,
+                            twin=bool(getattr(other, "is_twin", False)), judged_calculator=ci,
+                            series=[[c, a] for c, a in plan[:t + 1]],
+                            args=[[[float(x) for x in wv], d] for wv, d in args])
+                w[:] = state[0]
+
+                def changed(why, later):
+                    for k, (cj, leaves, snap) in enumerate(held):
+                        if result_state(leaves) != snap:
+                            who = ("same-calculator" if cj == ci else "second-calculator") if later else "weights"
+                            sig = ("history:earlier-result-changed-by-later-call:%s:%s" % (who, calcs[cj].kind) if later
+                                   else "history:result-aliases-weights-array:%s" % calcs[cj].kind)
+                            acc.violation(sig, dict(case, part=why, result_of_call=k + 1),
+                                          expected="the result of call %d as it was handed out: %r" % (k + 1, show_state(snap)),
+                                          observed=[np.asarray(g).tolist() for g in leaves],
+                                          standalone=self.series_snippet(other, series[:t + 1], k))
+                            return True
+                    return False
+                if changed("the caller refilled its weight array", False):
+                    return False
+                acc.transitions += 1
+                acc.evaluations += 1
+                snip = lambda: self.series_snippet(other, series[:t + 1], t)
+                sig = "history:call-series:%s" % lc.kind
+                got = lc.call(acc, w, state[1], case, snip, history=sig)
+                if got is None:
+                    return False
+                if changed("call %d" % (t + 1), True):
+                    return False
+                snap = result_state(got)
+                if judged.get((ci, ai)) != snap:
+                    # (bit-identical to a result of the same calculator and argument that was judged right: same verdict)
+                    if not lc.judge(acc, got, lc.expect(state[0], state[1]), case, snip, history=sig):
+                        return False
+                    judged[(ci, ai)] = snap
+                if held and not lc.expect(state[0], state[1])["vacuum"]:
+                    interesting = True
+                held.append((ci, got, snap))
+            if interesting:
+                acc.nontrivial += 1
+        acc.outcome("history:call-series:%s/%s%s:ok" % (self.kind, other.kind, " (second creation)"
+                                                       if getattr(other, "is_twin", False) else ""))
+        return True
+
+
     # ------------------------------------------------------------------ the caller edits its arguments after creation
     def edit_snippet(self, what, kind, timing, first, cur):
         E, n = self.E, len(self.mats)
@@ -770,6 +917,20 @@ def check_list(E, acc, mats, forms, sample=False, only=None, tier="quick"):
         if ok:
             lc.arguments_intact(acc, lc._mats, lc._wl_before, "calls")
         acc.count("history_walks")
+    # call series: every result handed out earlier is read again after every later call
+    series_forms = SERIES_FORMS_QUICK if tier == "quick" else FORMS_THOROUGH
+    sw = [lc for lc in clean if lc.form in series_forms]
+    args = series_args(n, tier)
+    for k, lc in enumerate(sw):
+        if only is not None and lc.form not in only:
+            continue
+        tw = lc.twin(acc)
+        ok = tw is not None and lc.series_walk(acc, tw, args, SERIES_DEPTH)
+        if ok and len(sw) > 1:
+            ok = lc.series_walk(acc, sw[(k + 1) % len(sw)], args, SERIES_DEPTH)
+        if ok:
+            lc.arguments_intact(acc, lc._mats, lc._wl_before, "call-series")
+        acc.count("call_series_walks")
     if n <= 2:
         edit_forms = EDIT_FORMS_QUICK if tier == "quick" else FORMS_THOROUGH
         for lc in clean:
@@ -1054,6 +1215,30 @@ def replay(ctx, case, signature=None):
                 if not lc.check(ctx.acc, weights, density):
                     return
         lc.creation_histories(ctx.acc, [(w, d) for w in itertools.product(WEIGHTS, repeat=n) for d in DENSITIES])
+        return
+    if mode == "series":
+        first, second = (case["wl"], case["wl2"]) if case.get("judged_calculator", 0) == 0 else (case["wl2"], case["wl"])
+        if first != lc.form:
+            lc = ListCheck(E, mats, first)
+            if not lc.build(ctx.acc):
+                return
+        if case.get("twin"):
+            other = lc.twin(ctx.acc)
+            if other is None:
+                return
+        else:
+            other = ListCheck(E, mats, second)
+            if not other.build(ctx.acc):
+                return
+        args = [(tuple(wv), d) for wv, d in case["args"]]
+        lc.series_walk(ctx.acc, other, args, len(case["series"]), only=tuple((c, a) for c, a in case["series"]))
+        if ctx.acc.viol:
+            return
+        scratch = Acc()
+        check_list(E, scratch, mats, FORMS_THOROUGH, tier="thorough" if len(mats) <= 2 else ctx.tier)
+        for sig, rec in scratch.viol.items():
+            if signature is None or sig == signature:
+                ctx.acc.viol[sig] = rec
         return
     # a history: first the recorded pair of calls on a new calculator ...
     prev = (tuple(case["previous"][0]), case["previous"][1])
